@@ -71,7 +71,7 @@ type obsRec struct {
 	b    thor.Bytes32
 }
 
-var kinds = []string{"spin", "spin", "full", "state", "api", "api", "fin", "spin"}
+var kinds = []string{"spin", "spin", "full", "state", "api", "api", "fin", "next"}
 
 func main() {
 	out := flag.String("out", ".", "output dir")
@@ -80,7 +80,7 @@ func main() {
 	runs := flag.Int("runs", 4, "concurrent runs per stream")
 	blocks := flag.Int("blocks", 40, "trunk length")
 	propose := flag.Int("propose", 4, "blocks the node produces itself after the stream")
-	nReaders := flag.Int("readers", 7, "reader goroutines (<= 8)")
+	nReaders := flag.Int("readers", 8, "reader goroutines (<= 8)")
 	tracecap := flag.Int("tracecap", 40, "observation groups kept per reader and run for the TLA+ trace")
 	traceRuns := flag.Int("traceruns", 0, "write only this many runs into the trace (0 = all)")
 	batch := flag.Int("batch", 400, "queries of the read-only batch at quiescence")
@@ -102,7 +102,7 @@ func main() {
 		readerNames = append(readerNames, fmt.Sprintf("r%d", i))
 	}
 	all = append(all, nil) // Config, filled at the end
-	written := 0
+	written, writtenViol := 0, 0
 	for s := 0; s < *streams; s++ {
 		sseed := *seed*1000 + int64(s)
 		w := buildStream(sseed, *blocks)
@@ -145,7 +145,10 @@ func main() {
 			if st.Diverged {
 				// reported on its own; a node whose fork choice was derailed re-proposes the same block etc. - its
 				// trace is not a behaviour of Publish.tla and would only repeat the verdict
-			} else if *traceRuns == 0 || written < *traceRuns || len(st.Violations) > 0 {
+			} else if *traceRuns == 0 || written < *traceRuns || (len(st.Violations) > 0 && writtenViol < 4) {
+				if len(st.Violations) > 0 {
+					writtenViol++
+				}
 				st.TraceLines = len(evs)
 				all = append(all, evs...)
 				written++
